@@ -127,7 +127,7 @@ func (e *env) runPoint(p *program, s settings, cache string) []*rtRun {
 	e.tick()
 	ctx := context.Background()
 	one := func(c wazero.CompilationCache) *rtRun {
-		r := newRT(s, c)
+		r := newRT(p, s, c)
 		r.compile(p)
 		r.run(p)
 		r.dispose()
@@ -174,7 +174,7 @@ func (e *env) runPoint(p *program, s settings, cache string) []*rtRun {
 	case "shared":
 		c := wazero.NewCompilationCache()
 		defer c.Close(ctx)
-		r1, r2 := newRT(s, c), newRT(s, c)
+		r1, r2 := newRT(p, s, c), newRT(p, s, c)
 		r1.compile(p)
 		r2.compile(p)
 		r2.run(p)
@@ -529,7 +529,9 @@ type scenario struct {
 	Tuple []string `json:"tuple"` // setting letters in creation order
 }
 
-func (s scenario) key() string { return s.Cache + "|" + s.Life + "|" + s.Mode + "|" + strings.Join(s.Tuple, "") }
+func (s scenario) key() string {
+	return s.Cache + "|" + s.Life + "|" + s.Mode + "|" + strings.Join(s.Tuple, "")
+}
 
 var lives = []string{"keep", "closeRuntime", "closeCompiled"}
 
@@ -668,7 +670,7 @@ func (e *env) runScenario(p *program, engine string, sc scenario) []*rtRun {
 	switch sc.Mode {
 	case "seq":
 		for i, l := range sc.Tuple {
-			r := newRT(letterSettings(engine, l), cache)
+			r := newRT(p, letterSettings(engine, l), cache)
 			runs[i] = r
 			r.compile(p)
 			r.run(p)
@@ -676,7 +678,7 @@ func (e *env) runScenario(p *program, engine string, sc scenario) []*rtRun {
 		}
 	case "inter", "inter-rev", "inter-021", "inter-102", "inter-120", "inter-201":
 		for i, l := range sc.Tuple {
-			runs[i] = newRT(letterSettings(engine, l), cache)
+			runs[i] = newRT(p, letterSettings(engine, l), cache)
 		}
 		for _, j := range compileOrder(sc.Mode, n) {
 			runs[j].compile(p)
@@ -1293,11 +1295,11 @@ func main() {
 		Bounds: map[string]any{
 			"programs": len(corpus), "programs_per_family": families, "programs_in_order_scenarios": nOrder,
 			"lattice_points": len(allPoints()), "cache_modes": cacheModes, "toggles": []string{"capmax", "alloc", "nodebug", "custom", "listener", "cod"},
-			"semantic_bases":      []string{fmt.Sprintf("WithMemoryLimitPages(%d): all programs", smallLimit), "default limit (65536): programs with a memory"},
-			"order_settings":      map[string]string{"D": "default", "T": "WithCloseOnContextDone(true)", "L": "function listener", "N": "WithDebugInfoEnabled(false)", "M": "WithMemoryLimitPages(2)", "F": "WithCoreFeatures(V1)", "C": "WithMemoryCapacityFromMax(true)", "A": "custom MemoryAllocator"},
-			"order_tuples":        len(tuples()),
+			"semantic_bases":           []string{fmt.Sprintf("WithMemoryLimitPages(%d): all programs", smallLimit), "default limit (65536): programs with a memory"},
+			"order_settings":           map[string]string{"D": "default", "T": "WithCloseOnContextDone(true)", "L": "function listener", "N": "WithDebugInfoEnabled(false)", "M": "WithMemoryLimitPages(2)", "F": "WithCoreFeatures(V1)", "C": "WithMemoryCapacityFromMax(true)", "A": "custom MemoryAllocator"},
+			"order_tuples":             len(tuples()),
 			"order_scenarios_per_case": map[string]int{"quick": len(enumScenarios("mem", 0)), "thorough": len(enumScenarios("mem", 1)), "thorough_order_flagged_programs": len(enumScenarios("mem", 2))},
-			"engines":             []string{"compiler", "interpreter"},
+			"engines":                  []string{"compiler", "interpreter"},
 		},
 		Extra: map[string]any{
 			"runtime_life_cycles": runs, "cases": len(cases), "cases_done": perKind, "distinct_baseline_traces": len(digests), "explore_wall_s": time.Since(t0).Seconds(),
